@@ -75,6 +75,9 @@ pub enum Terminal {
     Leak(String),
     /// a spin loop whose condition can never become true
     Livelock,
+    /// a lock whose guard was dropped by an unwinding panic (poisoned) was acquired again:
+    /// `lock().unwrap()` panics
+    Poison,
 }
 
 #[derive(Clone, Debug, Default)]
@@ -104,6 +107,7 @@ struct Th {
 struct MutexSt {
     owner: Option<u8>,
     last_unlock: Option<usize>,
+    poisoned: bool,
 }
 
 #[derive(Clone, Debug, Default)]
@@ -112,6 +116,7 @@ struct RwSt {
     readers: Vec<u8>,
     last_wunlock: Option<usize>,
     runlocks: Vec<usize>,
+    poisoned: bool,
 }
 
 #[derive(Clone, Debug, Default)]
@@ -224,6 +229,8 @@ pub struct Machine<'p> {
     pub trace: Vec<(u8, u16)>,
     /// set when a data race was detected (event pair)
     pub race: Option<(usize, usize)>,
+    /// a poisoned lock was acquired (the acquirer panics)
+    pub poison_hit: bool,
     /// reach probes
     pub probe_load_multi: u32,
     pub probe_blocked_then_woken: u32,
@@ -295,6 +302,7 @@ impl<'p> Machine<'p> {
             results: p.threads.iter().map(|t| vec![None; t.len()]).collect(),
             trace: Vec::new(),
             race: None,
+            poison_hit: false,
             probe_load_multi: 0,
             probe_blocked_then_woken: 0,
             probe_rmw_nonlatest: 0,
@@ -357,12 +365,19 @@ impl<'p> Machine<'p> {
                     None
                 }
             }
+            // the op performed while a caught panic unwinds has the semantics of the op itself
+            // (plus lock poisoning, see `step`)
+            Op::Caught { op } => self.effective(t, op),
             o => Some(o),
         }
     }
 
     /// Can thread `t` take its next (sub-)step now?
     pub fn enabled(&mut self, t: usize) -> bool {
+        if self.poison_hit {
+            // the acquiring thread panicked: the execution is over
+            return false;
+        }
         let op = match self.cur_op(t) {
             Some(op) => op,
             None => return false,
@@ -697,6 +712,7 @@ impl<'p> Machine<'p> {
             }
         };
         let tid = t as u8;
+        let caught = op0.is_caught();
         let mut res: Option<u64> = None;
         let mut completed = true;
         match *op {
@@ -841,6 +857,7 @@ impl<'p> Machine<'p> {
                 let e = self.push_ev(t, pc, EK::Sync, NOLOC, MO::Rlx);
                 let st = &mut self.mutex[m as usize];
                 st.owner = Some(tid);
+                self.poison_hit |= st.poisoned;
                 if let Some(u) = st.last_unlock {
                     self.g.extra.push((u, e));
                 }
@@ -850,6 +867,7 @@ impl<'p> Machine<'p> {
                 let st = &mut self.mutex[m as usize];
                 if st.owner.is_none() {
                     st.owner = Some(tid);
+                    self.poison_hit |= st.poisoned;
                     if let Some(u) = st.last_unlock {
                         self.g.extra.push((u, e));
                     }
@@ -875,6 +893,8 @@ impl<'p> Machine<'p> {
                 if st.owner == Some(tid) {
                     st.owner = None;
                     st.last_unlock = Some(e);
+                    // a guard dropped while its thread is panicking poisons the mutex
+                    st.poisoned |= caught;
                 }
             }
             Op::RLock { l } | Op::TryRLock { l } => {
@@ -884,6 +904,7 @@ impl<'p> Machine<'p> {
                 let ok = st.writer.is_none();
                 if ok {
                     st.readers.push(tid);
+                    self.poison_hit |= st.poisoned;
                     if let Some(u) = st.last_wunlock {
                         self.g.extra.push((u, e));
                     }
@@ -908,6 +929,7 @@ impl<'p> Machine<'p> {
                 let ok = st.writer.is_none() && st.readers.is_empty();
                 if ok {
                     st.writer = Some(tid);
+                    self.poison_hit |= st.poisoned;
                     if let Some(u) = st.last_wunlock {
                         self.g.extra.push((u, e));
                     }
@@ -936,6 +958,8 @@ impl<'p> Machine<'p> {
                     st.writer = None;
                     st.last_wunlock = Some(e);
                     st.runlocks.clear();
+                    // (read guards do not poison)
+                    st.poisoned |= caught;
                 }
             }
             Op::CvWait { c, m } => {
@@ -1002,6 +1026,7 @@ impl<'p> Machine<'p> {
                     let st = &mut self.mutex[m as usize];
                     assert!(st.owner.is_none());
                     st.owner = Some(tid);
+                    self.poison_hit |= st.poisoned;
                     if let Some(u) = st.last_unlock {
                         self.g.extra.push((u, e));
                     }
@@ -1420,7 +1445,7 @@ impl<'p> Machine<'p> {
             Op::Explore => self.th[t].in_region = false,
             Op::SkipBranch => {}
             Op::Panic { .. } | Op::Crash => {}
-            Op::If { .. } => unreachable!(),
+            Op::If { .. } | Op::Caught { .. } => unreachable!(),
         }
         if completed {
             if self.guided {
@@ -1485,6 +1510,9 @@ impl<'p> Machine<'p> {
             self.race = Some(r);
             return Terminal::Race;
         }
+        if self.poison_hit {
+            return Terminal::Poison;
+        }
         if !self.all_done() {
             return Terminal::Deadlock;
         }
@@ -1507,6 +1535,10 @@ impl<'p> Machine<'p> {
             v.push("Messages".to_string());
         }
         v
+    }
+
+    pub fn any_lock_poisoned(&self) -> bool {
+        self.mutex.iter().any(|m| m.poisoned) || self.rw.iter().any(|l| l.poisoned)
     }
 
     pub fn leak(&self) -> Option<String> {
